@@ -197,6 +197,15 @@ class Run:
             got = v in a
             if got != (v in m):
                 self.fail(k, "%r in a = %r, model %r" % (v, got, v in m), "contains")
+        elif t == "contains_straddle":
+            # a value made of the tail of item i and the head of item i+1: a member only if some whole item equals it
+            i = op[1] % n
+            k = 1 + op[2] % max(1, self.item - 1) if self.item > 1 else 0
+            j = (i + 1) % n
+            v = (m[i][k:] + m[j][:k]) if self.item > 1 else m[i]
+            got = v in a
+            if got != (v in m):
+                self.fail(k, "%r in a = %r, model %r (value straddles items %d and %d)" % (v, got, v in m, i, j), "contains:straddle")
         elif t == "len":
             if len(a) != n or a.item_size != self.item:
                 self.fail(k, "len %d / item_size %d, expected %d / %d" % (len(a), a.item_size, n, self.item), "len")
@@ -287,7 +296,7 @@ def st_slice(draw, n):
 @st.composite
 def st_op(draw, n, item):
     t = draw(st.sampled_from(["get", "get", "get", "set", "set", "set", "getslice", "getslice", "setslice", "setslice", "setslice",
-                              "del", "delslice", "clear", "iter", "contains", "len", "reopen", "reopen", "closed", "ctx", "sync",
+                              "del", "delslice", "clear", "iter", "contains", "contains_straddle", "len", "reopen", "reopen", "closed", "ctx", "sync",
                               "setslice_noniter"]))
     idx = st.one_of(st.integers(-n, n - 1), st.integers(-n - 3, n + 2), st.sampled_from([-1, -n, 0, n - 1, n, -n - 1]))
     if t == "get":
@@ -305,6 +314,8 @@ def st_op(draw, n, item):
         return ["del", draw(idx)]
     if t == "delslice":
         return ["delslice", draw(st_slice(n))]
+    if t == "contains_straddle":
+        return ["contains_straddle", draw(st.integers(0, 60)), draw(st.integers(0, 8))]
     if t == "contains":
         size = draw(st.sampled_from([item, item, max(1, item - 1)]))
         return ["contains", draw(st.one_of(st.just(b"\x00" * size), st.binary(min_size=size, max_size=size))).hex()]
